@@ -475,3 +475,47 @@ def check_pull_types(ctx, prog, I):
                 ctx.finding('C01.3', fn, 'pulltable:%s-by-%s' % (their, mine),
                             'after a %s stepped away, pulling an adjacent enemy %s is %soffered; official: %s'
                             % (mine, their, '' if got else 'not ', 'legal' if want else 'illegal'))
+
+
+def check_support_argument(ctx, prog):
+    """Support is counted from friendly pieces only: every call of supported_pieces receives a single-colour mask."""
+    ctx.rule('C01.2s', 'supported_pieces is only ever applied to the pieces of one colour (each bit of its argument requires that '
+                       'colour\'s literal): friendly support, never support by any piece')
+    from .mai import State
+    I = inputs.make_interp(prog, fuel=5000000)
+    sink = []
+    I.watch = {'supported_pieces': sink}
+    fn = prog.one('GameState::curr_player_non_frozen_pieces')
+    fn2 = prog.one('both_player_supported_pieces')
+    if not (ctx.anchor('fn curr_player_non_frozen_pieces', fn is not None) and ctx.anchor('fn both_player_supported_pieces', fn2 is not None)):
+        return
+    for gold in (True, False):
+        st = State({})
+        gs = inputs.ref_to(I, st, 'gs', inputs.play_state(prog, gold, 0))
+        pb = inputs.ref_to(I, st, 'pb', inputs.board(prog))
+        I.memo.clear()
+        I.call_fn(fn, [gs, pb], st)
+    st = State({})
+    pb = inputs.ref_to(I, st, 'pb', inputs.board(prog))
+    I.memo.clear()
+    I.call_fn(fn2, [pb], st)
+    I.watch = {}
+    ctx.floor('calls of supported_pieces observed', len(sink), 4)
+    for caller, args in sink:
+        bv = args[0]
+        colours = set()
+        ok = isinstance(bv, BV)
+        if ok:
+            for i, b in enumerate(bv.bits):
+                m = B.must(b)
+                if all(l in m for l in mover_lits(True, i)):
+                    colours.add('gold')
+                elif all(l in m for l in mover_lits(False, i)):
+                    colours.add('silver')
+                else:
+                    colours.add('?')
+        ok = ok and len(colours) == 1 and '?' not in colours
+        ctx.ob('supported_pieces called from %s with a %s-only mask' % (caller, sorted(colours)), ok, sample=True)
+        if not ok:
+            ctx.finding('C01.2s', caller, 'support-argument', 'supported_pieces is applied to a mask that is not restricted to one colour '
+                        '(%s): support would be counted from enemy pieces' % sorted(colours))
